@@ -49,6 +49,15 @@ type Item struct {
 	// Calls maps Go callee names to Coq function names (already defined
 	// earlier in the same generated file or imported).
 	Calls map[string]string `json:"calls"`
+	// VarArgs: callee (Go name) -> number of fixed arguments; the remaining
+	// (variadic) arguments are packed into a Coq list (b-exchange, C13).
+	VarArgs map[string]int `json:"varargs"`
+	// Methods maps a Go method name to a Coq function: recv.M(a, b) -> (f recv a b).
+	Methods map[string]string `json:"methods"`
+	// ErrCalls lists error constructors (e.g. "errors.New"); the k-th such call
+	// in source order (k = 1..) is translated to the integer ErrBase + k.
+	ErrCalls []string `json:"errcalls"`
+	ErrBase  int      `json:"errbase"`
 }
 
 type Output struct {
@@ -234,6 +243,7 @@ type tr struct {
 	used   map[string]bool // package constants referenced
 	bools  map[string]bool
 	locals map[string]bool
+	errIdx map[token.Pos]int // position of an error-constructor call -> 1-based index
 }
 
 func zlit(v constant.Value) string {
@@ -365,12 +375,37 @@ func (t *tr) expr(e ast.Expr) string {
 				return "(wrap_s32 " + t.expr(a) + ")"
 			}
 		}
+		if k, ok := t.errIdx[x.Pos()]; ok {
+			return fmt.Sprintf("%d", t.it.ErrBase+k)
+		}
 		if c, ok := t.it.Calls[show(x.Fun)]; ok {
 			s := "(" + c
-			for _, a := range x.Args {
+			fixed, variadic := t.it.VarArgs[show(x.Fun)]
+			var rest []string
+			for i, a := range x.Args {
+				if variadic && i >= fixed {
+					rest = append(rest, t.expr(a))
+					continue
+				}
 				s += " " + t.expr(a)
 			}
+			if variadic {
+				l := "nil"
+				for i := len(rest) - 1; i >= 0; i-- {
+					l = "(cons " + rest[i] + " " + l + ")"
+				}
+				s += " " + l
+			}
 			return s + ")"
+		}
+		if sel, ok := x.Fun.(*ast.SelectorExpr); ok {
+			if f, ok := t.it.Methods[sel.Sel.Name]; ok {
+				s := "(" + f + " " + t.expr(sel.X)
+				for _, a := range x.Args {
+					s += " " + t.expr(a)
+				}
+				return s + ")"
+			}
 		}
 	}
 	die("%s: expression shape not understood: %s", t.it.Func, show(e))
@@ -670,6 +705,25 @@ func (t *tr) stmts(list []ast.Stmt, tail string) string {
 			return t.stmts(append(append([]ast.Stmt{}, deflt...), rest...), tail)
 		}
 		return t.stmts(append([]ast.Stmt{chain}, rest...), tail)
+	case *ast.RangeStmt:
+		// for _, e := range xs { if cond { return X } }  ==>  if existsb (fun e => cond) xs then X else <rest>
+		id, okv := x.Value.(*ast.Ident)
+		kid, okk := x.Key.(*ast.Ident)
+		if x.Tok == token.DEFINE && okv && okk && kid.Name == "_" && len(x.Body.List) == 1 {
+			if ifs, ok := x.Body.List[0].(*ast.IfStmt); ok && ifs.Init == nil && ifs.Else == nil &&
+				len(ifs.Body.List) == 1 {
+				if ret, ok := ifs.Body.List[0].(*ast.ReturnStmt); ok {
+					xs := t.expr(x.X)
+					saved := copyMap(t.locals)
+					t.locals[id.Name] = true
+					cond := t.expr(ifs.Cond)
+					thn := t.stmts([]ast.Stmt{ret}, "")
+					t.locals = saved
+					return "(if List.existsb (fun " + id.Name + " => " + cond + ") " + xs + "\n   then " + thn + "\n   else " + t.stmts(rest, tail) + ")"
+				}
+			}
+		}
+		die("%s: range loop shape not understood: %s", t.it.Func, show(s))
 	case *ast.ExprStmt, *ast.EmptyStmt:
 		die("%s: statement not understood: %s", t.it.Func, show(s))
 	}
@@ -810,7 +864,25 @@ func main() {
 				if fd == nil || fd.Body == nil {
 					die("function %s not found in %s", it.Func, it.File)
 				}
-				t := &tr{it: it, pc: pc, used: map[string]bool{}, bools: map[string]bool{}, locals: map[string]bool{}}
+				t := &tr{it: it, pc: pc, used: map[string]bool{}, bools: map[string]bool{}, locals: map[string]bool{}, errIdx: map[token.Pos]int{}}
+				var errDoc []string
+				if len(it.ErrCalls) > 0 {
+					ast.Inspect(fd.Body, func(n ast.Node) bool {
+						if ce, ok := n.(*ast.CallExpr); ok {
+							for _, ec := range it.ErrCalls {
+								if show(ce.Fun) == ec {
+									t.errIdx[ce.Pos()] = len(t.errIdx) + 1
+									msg := ""
+									if len(ce.Args) > 0 {
+										msg = strings.ReplaceAll(strings.ReplaceAll(show(ce.Args[0]), "(*", "( *"), "*)", "* )")
+									}
+									errDoc = append(errDoc, fmt.Sprintf("(* %s error %d = %s *)\n", it.Name, it.ErrBase+len(t.errIdx), msg))
+								}
+							}
+						}
+						return true
+					})
+				}
 				for _, b := range it.Bools {
 					t.bools[b] = true
 				}
@@ -853,6 +925,9 @@ func main() {
 				ret := it.Ret
 				if ret == "" {
 					ret = "Z"
+				}
+				for _, d := range errDoc {
+					sb.WriteString(d)
 				}
 				fmt.Fprintf(&sb, "(* from %s : %s *)\nDefinition %s %s : %s :=\n  %s.\n", it.File, it.Func, it.Name, strings.Join(ps, " "), ret, body)
 			default:
